@@ -25,7 +25,7 @@ import random
 
 import numpy as np
 
-from harness import data, detrt, sky
+from harness import data, detrt, par, sky
 from harness.yawenv import scratch
 
 
@@ -80,64 +80,84 @@ def run(ctx) -> None:
     quick = ctx.quick
     ctx.rule = ("scenarios of a 3-centre family enumerated by TLC, realised with every order of the centre list, by patch index and with generated "
                 "centres; non-trivial = unequal patch sizes or radii")
-    sc = sky.SkyConfig(nref=4, nunk=3, zcells="{2}", weights="{1, 2}", centres=(1, 5, 9), slots="{0, 1, 5, 6, 9}", rmin=(2.5,), rmax=(12.5,)).derive()
-    res, scen = sky.model_check(ctx, "Sky ideal, 3 centres, 4+3 objects, weights", sc, ["MetaDescribesPatch", "LinkSymmetric", "SelfLinked"])
+    sc = sky.SkyConfig(nref=4, nunk=3, zcells="{2}", weights="{1, 2}", centres=(1, 5, 9), slots="{0, 1, 3, 5, 6, 9}", rmin=(2.5,), rmax=(12.5,)).derive()
+    res, scen = sky.model_check(ctx, "Sky ideal, 3 centres, 4+3 objects, weights", sc, ["MetaDescribesPatch", "LinkSymmetric", "SelfLinked"], print_inv="PrintMeta")
     ctx.require(res.ok and scen, f"Sky ideal violated: {res.error_name}")
     ctx.extra["scenarios_enumerated"] = len(scen)
     delta = math.radians(sc.delta)
     embs = list(sky.EMBEDDINGS)
     perms = list(itertools.permutations(range(3)))
-    chosen = rng.sample(scen, min(len(scen), 40 if quick else 400))
+    chosen = rng.sample(scen, min(len(scen), 160 if quick else 1200))
     with scratch("c12_") as root:
-        for n, exp in enumerate(chosen):
-            emb = embs[n % len(embs)]
-            perm = perms[n % len(perms)]
-            # centres given in permuted order: patch k must be the k-th GIVEN centre
-            cen = sky.centre_coords(sc, emb, perm=perm)
-            dref, dunk = sky.frames(sc, exp, emb, order=n)
-            inv = [perm.index(i) for i in range(3)]           # model patch i (0-based) -> real patch id
-            detail = dict(embedding=emb, centre_order=list(perm), ref=[dict(o) for o in exp["ref"]])
-            nontriv = len(set(exp["num1"])) > 1 or len(set(exp["rad1"])) > 1
-            ctx.evaluated(1, (emb, perm, repr(exp["ref"])) if nontriv else None)
-            ctx.validated(1)
-            try:
-                cat = yaw.Catalog.from_dataframe(root / "a", dref, ra_name="ra", dec_name="dec", weight_name="w", redshift_name="z",
-                                                 patch_centers=cen, overwrite=True, max_workers=1, chunksize=2)
-            except Exception as exc:  # noqa: BLE001
-                ctx.violation(f"C12|apply|creation_raises_{type(exc).__name__}", dict(detail, error=repr(exc)[:200]))
-                continue
-            e_num = [exp["num1"][perm[k]] for k in range(3)]
-            e_sw = [exp["sumw1"][perm[k]] for k in range(3)]
-            e_rad = [exp["rad1"][perm[k]] for k in range(3)]
-            given = cen.data.copy()
-            ok = check_meta(ctx, yaw, cat, e_num, e_sw, e_rad, given, delta, "apply", "centres_permuted" if perm != (0, 1, 2) else "centres_in_order", detail)
-            if ok:
-                # the catalog must not alias the caller's centre array
-                cen.data[:] = cen.data[::-1] + 0.3
-                if not np.array_equal(cat.get_centers().data, given):
-                    ctx.violation("C12|apply|centres_array_modified_afterwards|reported_centres_follow_the_callers_array", dict(detail))
-                cen = sky.centre_coords(sc, emb, perm=perm)
-            if ok and n % 3 == 0:
-                # reload with several workers and scrambled completion orders (metadata recomputed)
-                data.copy_cache(root / "a", root / "b")
-                s, outcome = detrt.run_main(lambda: yaw.Catalog(root / "b", max_workers=3), seed=n)
-                if outcome[0] == "ok":
-                    # metadata without given centres: centre = weighted mean; only counts and containment are fixed
-                    check_meta(ctx, yaw, outcome[1], e_num, e_sw, None, None, delta, "reload_parallel", "scrambled_completion_order", detail)
-                else:
-                    ctx.violation(f"C12|reload_parallel|{outcome[0]}", dict(detail, error=repr(outcome[1])[:200]))
-            if n % 4 == 0:
-                # patch-index mode: ids from the model's assignment
-                dd = dref.copy()
-                pts = np.deg2rad(dd[["ra", "dec"]].to_numpy())
-                dd["pid"] = [min(range(3), key=lambda j: ang_dist(p, cen.data[j])) for p in pts]
-                c2 = yaw.Catalog.from_dataframe(root / "c", dd, ra_name="ra", dec_name="dec", weight_name="w", redshift_name="z",
-                                                patch_name="pid", overwrite=True, max_workers=1)
-                check_meta(ctx, yaw, c2, e_num, e_sw, None, None, delta, "divide", "patch_index_column", detail)
-            if len(ctx.samples) < 4 and nontriv:
-                ctx.sample(dict(detail, expected_num=e_num, expected_radius_steps=e_rad))
+        par.pmap(ctx, realise_job, [(n, exp, sc, str(root / f"job{n}"), ctx.seed) for n, exp in enumerate(chosen)])
         refusal(ctx, yaw, root, sc, rng, InconsistentPatchesError)
         generated(ctx, yaw, root, rng)
+
+
+def realise_job(ctx, job) -> None:
+    import shutil
+    from pathlib import Path
+
+    yaw = data.import_yaw()
+    n, exp, sc, root, seed = job
+    root = Path(root)
+    root.mkdir(parents=True, exist_ok=True)
+    delta = math.radians(sc.delta)
+    embs = list(sky.EMBEDDINGS)
+    perms = list(itertools.permutations(range(3)))
+    try:
+        _realise(ctx, yaw, n, exp, sc, root, delta, embs, perms)
+    finally:
+        shutil.rmtree(root, ignore_errors=True)
+
+
+def _realise(ctx, yaw, n, exp, sc, root, delta, embs, perms) -> None:
+        emb = embs[n % len(embs)]
+        perm = perms[n % len(perms)]
+        # centres given in permuted order: patch k must be the k-th GIVEN centre
+        cen = sky.centre_coords(sc, emb, perm=perm)
+        dref, dunk = sky.frames(sc, exp, emb, order=n)
+        inv = [perm.index(i) for i in range(3)]           # model patch i (0-based) -> real patch id
+        detail = dict(embedding=emb, centre_order=list(perm), ref=[dict(o) for o in exp["ref"]])
+        nontriv = len(set(exp["num1"])) > 1 or len(set(exp["rad1"])) > 1
+        ctx.evaluated(1, (emb, perm, repr(exp["ref"])) if nontriv else None)
+        ctx.validated(1)
+        try:
+            cat = yaw.Catalog.from_dataframe(root / "a", dref, ra_name="ra", dec_name="dec", weight_name="w", redshift_name="z",
+                                             patch_centers=cen, overwrite=True, max_workers=1, chunksize=2)
+        except Exception as exc:  # noqa: BLE001
+            ctx.violation(f"C12|apply|creation_raises_{type(exc).__name__}", dict(detail, error=repr(exc)[:200]))
+            return
+        e_num = [exp["num1"][perm[k]] for k in range(3)]
+        e_sw = [exp["sumw1"][perm[k]] for k in range(3)]
+        e_rad = [exp["rad1"][perm[k]] for k in range(3)]
+        given = cen.data.copy()
+        ok = check_meta(ctx, yaw, cat, e_num, e_sw, e_rad, given, delta, "apply", "centres_permuted" if perm != (0, 1, 2) else "centres_in_order", detail)
+        if ok:
+            # the catalog must not alias the caller's centre array
+            cen.data[:] = cen.data[::-1] + 0.3
+            if not np.array_equal(cat.get_centers().data, given):
+                ctx.violation("C12|apply|centres_array_modified_afterwards|reported_centres_follow_the_callers_array", dict(detail))
+            cen = sky.centre_coords(sc, emb, perm=perm)
+        if ok and n % 3 == 0:
+            # reload with several workers and scrambled completion orders (metadata recomputed)
+            data.copy_cache(root / "a", root / "b")
+            s, outcome = detrt.run_main(lambda: yaw.Catalog(root / "b", max_workers=3), seed=n)
+            if outcome[0] == "ok":
+                # metadata without given centres: centre = weighted mean; only counts and containment are fixed
+                check_meta(ctx, yaw, outcome[1], e_num, e_sw, None, None, delta, "reload_parallel", "scrambled_completion_order", detail)
+            else:
+                ctx.violation(f"C12|reload_parallel|{outcome[0]}", dict(detail, error=repr(outcome[1])[:200]))
+        if n % 4 == 0:
+            # patch-index mode: ids from the model's assignment
+            dd = dref.copy()
+            pts = np.deg2rad(dd[["ra", "dec"]].to_numpy())
+            dd["pid"] = [min(range(3), key=lambda j: ang_dist(p, cen.data[j])) for p in pts]
+            c2 = yaw.Catalog.from_dataframe(root / "c", dd, ra_name="ra", dec_name="dec", weight_name="w", redshift_name="z",
+                                            patch_name="pid", overwrite=True, max_workers=1)
+            check_meta(ctx, yaw, c2, e_num, e_sw, None, None, delta, "divide", "patch_index_column", detail)
+        if len(ctx.samples) < 4 and nontriv:
+            ctx.sample(dict(detail, expected_num=e_num, expected_radius_steps=e_rad))
 
 
 def refusal(ctx, yaw, root, sc, rng, Err):
